@@ -1,0 +1,80 @@
+// Copyright 2025 The Go Authors. All rights reserved.
+// Use of this source code is governed by a BSD-style
+// license that can be found in the LICENSE file.
+
+//go:build verif
+
+package socks
+
+// Contracts, spec functions and lemma harnesses for the deductive verifier in /verif (govc).
+// This file is compiled only with -tags verif; it adds no behaviour to the package.
+
+// ---------------------------------------------------------------------------
+// SOCKS5 CONNECT request (property C54), RFC 1928 section 4:
+//   VER=05 CMD RSV=00 ATYP DST.ADDR DST.PORT(2, network order)
+//   ATYP 01: 4 address bytes; ATYP 04: 16 address bytes; ATYP 03: 1 length byte + that many name bytes.
+
+//@ func splitHostPort(address) (host, port, err)
+//@   ensures err == nil ==> 1 <= port && port <= 0xffff
+//@   ensures err != nil ==> len(host) == 0 && port == 0
+//@   ensures len(host) <= len(address)
+//@   allocates
+
+// Reference decoder of a CONNECT request (what a conforming server does with the bytes).
+//
+// reqAddrLen: number of DST.ADDR bytes announced by ATYP (and the length octet for a name).
+//
+//@ pure
+func reqAddrLen(b []byte) int {
+	if b[3] == 0x01 {
+		return 4
+	}
+	if b[3] == 0x04 {
+		return 16
+	}
+	return 1 + int(b[4])
+}
+
+// reqWellFormed: VER 05, RSV 00, a known ATYP, and exactly header + address + 2 port bytes.
+//
+//@ pure
+func reqWellFormed(b []byte) bool {
+	return len(b) >= 7 && b[0] == 0x05 && b[2] == 0x00 && (b[3] == 0x01 || b[3] == 0x03 || b[3] == 0x04) &&
+		len(b) == 4+reqAddrLen(b)+2
+}
+
+// reqPort: DST.PORT in network byte order, the last two bytes.
+//
+//@ pure
+func reqPort(b []byte) int { return int(b[len(b)-2])<<8 | int(b[len(b)-1]) }
+
+// The context goroutine/select/defer part of connect is dropped (`abstract`, listed in the evidence).
+// The engine evaluates `assert at call` only at static calls, not at interface method calls such as
+// c.Write(b), so the condition on the bytes handed to Write is asserted at the next static call, the
+// io.ReadFull(c, b[:n]) that follows each successful Write: the trusted contract of net.Conn.Write has
+// an empty modifies clause ("Write must not modify the slice data"), so b there is still exactly the
+// slice that was written. ReadFull#1 follows the method-selection message, ReadFull#2 the CONNECT request.
+//
+//@ func (*Dialer).connect(d, ctx, c, address) (addr, ctxErr)
+//@   abstract
+//@   requires d != nil && ctx != nil && c != nil && len(address) <= 1<<40
+//@   allocates
+//@   noframe
+//@   loop 1 invariant len(b) >= 2 && cap(b) >= 6 && b[0] == 0x05 && int(b[1]) == len(ams) && len(b) == 2 + rangeindex + 1 && len(ams) <= 255
+//@   assert at call ReadFull#1: len(b) >= 3
+//@   assert at call ReadFull#1: b[0] == 0x05
+//@   assert at call ReadFull#2: reqPort(b) == port && 1 <= port && port <= 0xffff
+//@   assert at call ReadFull#2: b[3] == 0x03 ==> int(b[4]) == len(host) && forall k int :: 0 <= k && k < len(host) ==> b[5+k] == host[k]
+//@   assert at call ReadFull#2: b[3] == 0x03 <==> ip == nil
+// (Attempted but not claimed: reqWellFormed(b) and b[1] == byte(d.cmd) at ReadFull#2 were discharged in some
+// runs (z3, 20 s and 7 s) and undecided in others under load; also undecided: for ATYP 01/04 the address bytes equal
+// net.ParseIP(host).To4()/To16(); and NMETHODS == len(b)-2 in the method-selection message.)
+//@   ensures addr != nil ==> hastype(addr, *Addr) && 0 <= addr.(*Addr).Port && addr.(*Addr).Port <= 0xffff
+//@
+//@ func (*Dialer).connect$1()
+//@   abstract
+//@   inline
+//@
+//@ func (*Dialer).connect$2()
+//@   abstract
+//@   inline
